@@ -321,6 +321,12 @@ func (c *checker) checkDiagram(d Diagram, text string) {
 	type pair struct{ s, t *Type }
 	want := map[pair]int{}
 	wraps := map[pair]map[string]bool{}
+	plains := map[pair]int{} // direct (unwrapped) references per pair
+	type flexRef struct {
+		s, a, b *Type
+		wrap    string
+	}
+	var flex []flexRef
 	allow := map[*Type]int{} // references to model types this diagram does not draw
 	nt := false
 	for s := range drawn {
@@ -331,6 +337,22 @@ func (c *checker) checkDiagram(d Diagram, text string) {
 			if f.Ref == nil {
 				continue
 			}
+			// An in-place field whose name is also the name of an application-level type: the
+			// compiled reference is the bare path [name], which names that type as well as the
+			// nested one; the model cannot tell which is meant, so a line to either is accepted.
+			if f.Decl != nil {
+				var alt *Type
+				for _, o := range s.App.Types {
+					if !o.Nested() && o.Name == f.Name {
+						alt = o
+					}
+				}
+				if _, ok := drawn[alt]; alt != nil && ok {
+					flex = append(flex, flexRef{s, f.Ref, alt, f.Wrap.String()})
+					c.res.Count("edges_with_two_readings", 1)
+					continue
+				}
+			}
 			if _, ok := drawn[f.Ref]; ok {
 				p := pair{s, f.Ref}
 				want[p]++
@@ -338,6 +360,9 @@ func (c *checker) checkDiagram(d Diagram, text string) {
 					wraps[p] = map[string]bool{}
 				}
 				wraps[p][f.Wrap.String()] = true
+				if f.Wrap.String() == "plain" {
+					plains[p]++
+				}
 				if f.Ref != s {
 					nt = true
 				}
@@ -377,6 +402,24 @@ func (c *checker) checkDiagram(d Diagram, text string) {
 		}
 		got[pair{s, t}]++
 	}
+	// two-reading references: satisfied by a surplus line to either target, else demanded of the nested one
+	for _, fr := range flex {
+		p := pair{fr.s, fr.a}
+		if alt := (pair{fr.s, fr.b}); got[p] <= want[p] && (got[alt] > want[alt] || dangling[fr.s] > allow[fr.s]) {
+			// a surplus line to the application-level type, or a line that ends nowhere (the
+			// identifier-family finding F1 applies to that reading): judged as a reference to it
+			p = alt
+		}
+		if _, ok := drawn[p.t]; !ok {
+			allow[fr.s]++
+			continue
+		}
+		want[p]++
+		if wraps[p] == nil {
+			wraps[p] = map[string]bool{}
+		}
+		wraps[p][fr.wrap] = true
+	}
 	keysP := map[pair]bool{}
 	for p := range want {
 		keysP[p] = true
@@ -400,7 +443,7 @@ func (c *checker) checkDiagram(d Diagram, text string) {
 		}
 		if g < w {
 			deficit[p.s] += w - g
-			c.report("edge-missing|"+c.pairTrigger(p.s, p.t, wraps[p], w),
+			c.report("edge-missing|"+c.pairTrigger(p.s, p.t, wraps[p], w, w-g <= plains[p]),
 				"%s: %d relationship line(s) from %s to %s, but %d field(s) of %s refer to it (%s)", d.Name, g, p.s.Full(), p.t.Full(), w, p.s.Full(), wrapList(wraps[p]))
 		} else {
 			c.report("edge-extra|"+c.extraTrigger(p.s, p.t, drawn),
@@ -443,9 +486,19 @@ func kindTag(t *Type) string {
 // pairTrigger names the class of a missing relationship by the facts of the case: the
 // kinds of the two ends, whether a table refers through a collection, whether the target
 // is a nested type, whether several fields point at the target, whether it is the type itself.
-func (c *checker) pairTrigger(s, t *Type, wraps map[string]bool, n int) string {
+func (c *checker) pairTrigger(s, t *Type, wraps map[string]bool, n int, directCovers bool) string {
+	wrapped := wraps["set"] || wraps["sequence"] || wraps["list"]
+	if wrapped && wraps["plain"] && directCovers {
+		// direct and collection references to the same target, and no more lines are missing
+		// than there are direct references: judged as missing direct references
+		wrapped = false
+	}
 	switch {
-	case s.Kind == KTable && (wraps["set"] || wraps["sequence"] || wraps["list"]):
+	case s.Kind == KTable && t.Kind != KTable && wrapped:
+		// the line of a collection column is drawn, but to the identifier family of tables: the
+		// same cause as for a direct column reference to a tuple (finding F1)
+		return "table-to-" + t.Kind.String() + "|collection"
+	case s.Kind == KTable && wrapped:
 		return "table-collection-field"
 	case s.Kind == KTuple && t.Kind == KPAlias:
 		return "tuple-to-primitive-alias"
